@@ -69,7 +69,14 @@ def make_context(shape):
             m = mk_fixed(prog, [], [], None, [], [(key_name("Key_a_Normal"), [0x0996])])
             made.append(m)
             return m
-        it.env["overrides"] = {"FixedMethod::new": fixed_new, "Data::new": lambda it2, args, callee: data}
+        def get_layout(it2, args, callee):
+            from mirsym.values import some
+            return some(Opaque("serde_json::Value", ("layout",)))
+
+        def from_value(it2, args, callee):
+            from mirsym.values import ok
+            return ok(SMap("layout", [[key_name("Key_a_Normal"), SString([0x0996])]]))
+        it.env["overrides"] = {"FixedMethod::new": fixed_new, "Data::new": lambda it2, args, callee: data, "Config::get_layout": get_layout, "from_value": from_value}
         st.ctx = dict(buf=buf, fm=fm, cfg_new=cfg_new, opts_new=opts_new, opts_old=opts_old, made=made, shape=shape, holder=holder)
 
         def fn(name):
@@ -776,7 +783,11 @@ def make_layout_switch(shape):
             it.call_function(fn("finish_input_session"), [Ref(box, 0)])
             it.call_function(fn("update_engine"), [Ref(box, 0, True), Ref([cfgs["B"]], 0)])
             r2 = it.call_function(fn("get_suggestion_for_key"), [Ref(box, 0), code, 0, 0])
-            return r1, r2
+            # ... and back to the first layout
+            it.call_function(fn("finish_input_session"), [Ref(box, 0)])
+            it.call_function(fn("update_engine"), [Ref(box, 0, True), Ref([cfgs["A"]], 0)])
+            r3 = it.call_function(fn("get_suggestion_for_key"), [Ref(box, 0), code, 0, 0])
+            return r1, r2, r3
         return run
 
     def text_of(prog, r):
@@ -801,10 +812,11 @@ def make_layout_switch(shape):
             return dict(after_switch=None if t2 is None else model_string(m, t2))
         if out[0] == "panic":
             return [dict(kind="violation", clause="no_panic", inputs=inputs(model), predicted=pred(model))]
-        t1, t2 = text_of(prog, out[1][0]), text_of(prog, out[1][1])
+        t1, t2, t3 = text_of(prog, out[1][0]), text_of(prog, out[1][1]), text_of(prog, out[1][2])
         b = c["entries"].get("B") or []
         clauses = [("key_emits_what_the_layout_now_loaded_assigns", z3.And(seq_eq(t1, c["va"]) if t1 is not None and len(t1) == len(c["va"]) else z3.BoolVal(False),
-                                                                      (seq_eq(t2, b) if len(t2) == len(b) else z3.BoolVal(False)) if t2 is not None else z3.BoolVal(False))),
+                                                                      (seq_eq(t2, b) if len(t2) == len(b) else z3.BoolVal(False)) if t2 is not None else z3.BoolVal(False),
+                                                                      seq_eq(t3, c["va"]) if t3 is not None and len(t3) == len(c["va"]) else z3.BoolVal(False))),
                    ("cover:layout_switch", True)]
         return eval_clauses(st, clauses, lambda cn, m: dict(kind="violation", clause=cn, inputs=inputs(m), predicted=pred(m)))
     return build, on_path
@@ -830,6 +842,18 @@ def layout_switch_native(vs):
                 marks.append(len(steps) - 1)
                 steps += [{"op": "finish", "ctx": cx}]
         scs.append((label, {"steps": steps}, marks))
+    # there and back again: A -> B -> A must answer like a context created on A
+    b2 = dict({k: "চ" for k in a}, Key_zz_Normal="x")
+    steps = [{"op": "new", "ctx": 0, "config": {"layout_json": a, "opts": {"numpad": True}}}, {"op": "update", "ctx": 0, "config": {"layout_json": b2, "opts": {"numpad": True}}},
+             {"op": "key", "ctx": 0, "key": PLANT_KEYS[0]}, {"op": "finish", "ctx": 0}, {"op": "update", "ctx": 0, "config": {"layout_json": a, "opts": {"numpad": True}}},
+             {"op": "new", "ctx": 1, "config": {"layout_json": a, "opts": {"numpad": True}}}]
+    marks = []
+    for k in PLANT_KEYS[:4]:
+        for cx in (0, 1):
+            steps += [{"op": "key", "ctx": cx, "key": k}]
+            marks.append(len(steps) - 1)
+            steps += [{"op": "finish", "ctx": cx}]
+    scs.append(("(and back to the first layout)", {"steps": steps}, marks))
     for (label, sc, marks), r in zip(scs, run_replay([x[1] for x in scs])):
         rr = r["results"]
         if any("panic" in x for x in rr):
